@@ -123,6 +123,9 @@ def htslib_roundtrips(path, out):
         r = pysam.VariantFile(path)
         w = pysam.VariantFile(out, "w", header=r.header)
         for rec in r:
+            if rec.contig not in w.header.contigs:
+                # contigs need not be declared in a VCF; htslib learns them while parsing, the writer's header copy does not
+                w.header.contigs.add(rec.contig)
             w.write(rec)
         w.close()
         r.close()
